@@ -38,7 +38,9 @@ void harness(void) {
     int off = in_off = vp_int("in_off");
     H3Index ch[7] = {0, 0, 0, 0, 0, 0, 0};
     H3_EXPORT(cellToChildren)(P, RES, ch);
-    int n = spec_is_pentagon(P) ? 6 : 7;
+    // the set size is a job parameter (PENT): a symbolic allocation size forces CBMC into its unbounded-array encoding
+    enum { n = PENT ? 6 : 7 };
+    __CPROVER_assume((spec_is_pentagon(P) != 0) == (PENT != 0));
     __CPROVER_assume(off >= 0 && off < n);
 #ifdef EXTRA
     H3Index x = in_x = mkcell(RES, "in_x");
@@ -47,11 +49,12 @@ void harness(void) {
     VP_EXCLUDE();
     H3Index in[8] = {0}, out[8] = {0};
     for (int i = 0; i < 7; i++) if (i < n) in[i] = ch[(i + off) % n];
-    int total = n;
 #ifdef EXTRA
-    in[n] = x; total = n + 1;
+    in[n] = x;
+    H3Error e = H3_EXPORT(compactCells)(in, out, n + 1);
+#else
+    H3Error e = H3_EXPORT(compactCells)(in, out, n);
 #endif
-    H3Error e = H3_EXPORT(compactCells)(in, out, total);
     __CPROVER_assert(e == E_SUCCESS, "compactCells succeeds");
     int cnt = 0, hasP = 0, hasX = 0;
     for (int i = 0; i < 8; i++) if (out[i]) { cnt++; if (out[i] == P) hasP = 1;
